@@ -116,7 +116,9 @@ def run_case(case: Dict[str, Any], ctx) -> None:
         ctx.violation(key("scale-factors-differ-between-draws"), f"{A.scale_trace} vs {B.scale_trace} vs {C.scale_trace}", cfg=cfg)
     stol = 1e-11 if dtype == torch.float64 else 2 * tol  # fitted scalars of tiny low-precision tensors are noisy
     any_nonzero = False
-    lowp = dtype in (torch.bfloat16, torch.float16)
+    # (float32 with extreme data magnitudes - a saturated softmax, a norm of tiny values - is judged like the low-precision dtypes:
+    # against what PyTorch's own op loses on the very same draw)
+    lowp = dtype in (torch.bfloat16, torch.float16) or (dtype == torch.float32 and bool(cfg.get("_mags")))
     _noise_cache: Dict[str, Dict[str, float]] = {}
 
     def noise_of(tag: str, name: str) -> float:
